@@ -198,13 +198,18 @@ def main():
                       'makefractalCIJ levels 2..4(5), E in {1,2,3}; makerandCIJdegreesfixed on degree sequences of random simple digraphs N<=5; '
                       'non-trivial = distinct case in which the generator returned a non-empty matrix')
     ck.assumptions += ['K feasible: K <= N(N-1) (N(N-1)/2 undirected), K >= number of cluster cells for makeevenCIJ, N a power of two >= 4 where required',
-                       'maketoeplitzCIJ may give up with BCTParamError after 10000 rejections (documented): counted, not a violation ("if it returns")',
+                       'maketoeplitzCIJ (10000 rejections) and makerandCIJdegreesfixed (repair loop) may give up with BCTParamError (documented): counted, not a violation ("if it returns")',
                        'maketoeplitzCIJ, makefractalCIJ, makerandCIJdegreesfixed are checked by the Python predicates only (no Lean model)']
     ok = ck.lean_gate(['BctVerif.Props.C20'], extra_modules=['BctVerif.Model.Synth'])
     if ck.tier == 'thorough' and ok:
         ck.leanchecker(['BctVerif.Props.C20', 'BctVerif.Model.Synth'])
     if ck.replay:
-        cases = [json.load(open(ck.replay))['case']['case']]
+        rp = json.load(open(ck.replay))
+        if 'case' in rp:            # a violation replay: the failing input
+            cases = [rp['case']['case']]
+        else:                       # a 'no longer checks' replay: the correspondence cases named in it
+            cases = [b['detail']['case'] for b in rp.get('no_longer_checks', [])
+                     if isinstance(b.get('detail'), dict) and 'case' in b['detail']]
     else:
         cases = gen_cases(ck.rs, ck.tier)
     results = pmap(run_case, cases)
@@ -222,8 +227,8 @@ def main():
         if c.get('malformed'):
             ck.count('malformed:' + c['malformed'])
         elif r['status'] == 'exc':
-            if rt == 'maketoeplitzCIJ' and exc_kind(r['exc']) == 'BCTParamError':
-                ck.count('toeplitz:gave-up')
+            if rt in ('maketoeplitzCIJ', 'makerandCIJdegreesfixed') and exc_kind(r['exc']) == 'BCTParamError':
+                ck.count(rt + ':gave-up')      # documented: rejection / repair loop not guaranteed to succeed
             else:
                 ck.violation(rt, 'raises', {'case': c, 'exception': r['exc']}, cond)
         else:
